@@ -5,7 +5,7 @@
     source are regenerated into Gen/FsWalk_gen.v on every run and the premises [backend_keys_ok], [walk_ok] (and
     the chain parameters) are discharged for them by kernel-checked instance obligations in checks/c19.py. *)
 From Coq Require Import List NArith Bool Permutation.
-From SV Require Import SM.FsChain SM.FsChainProofs SM.FsChainWitness.
+From SV Require Import SM.FsChain SM.FsChainProofs SM.FsChainRel SM.FsChainWitness.
 Import ListNotations.
 Open Scope N_scope.
 
@@ -157,6 +157,22 @@ Proof. exact chain_walk_dedup. Qed.
 Theorem c19_chain_walk_dedup_casefold : forall rm ms folder,
   NoDup (map (fun x : str * file => fold (fst x)) (chain_walk rm [OFold] ms folder)).
 Proof. exact chain_walk_dedup_fold. Qed.
+
+(** The names a (repaired) chain walk lists are relative to the member's prefix: for a clean stored name lying under
+    the prefix up to case and slash kind, dropping the prefix's segments leaves [rest] with
+    fold(prefix) "/" fold(rest) = fold(name) ... *)
+Theorem c19_chain_walk_relative : forall orig p,
+  clean_name orig = true -> clean (slash p) = true ->
+  is_prefix (nkey p ++ [SL]) (nkey orig) = true ->
+  nkey orig = nkey p ++ SL :: nkey (drop_segs orig p).
+Proof. exact drop_segs_relative. Qed.
+(** ... so asking the same member for the listed name asks for the key of the stored file. *)
+Theorem c19_chain_walk_relative_lookup : forall orig p,
+  clean_name orig = true -> clean (slash p) = true -> clean p = true ->
+  is_prefix (nkey p ++ [SL]) (nkey orig) = true ->
+  is_prefix [SL] (drop_segs orig p) = false ->
+  nkey (full_name p (drop_segs orig p)) = nkey orig.
+Proof. exact drop_segs_lookup_key. Qed.
 
 (** os.path.relpath compares segments exactly: a member restricted to "Mat" that holds "mat/x" is listed by the
     pinned chain walk as "../mat/x" instead of "x" (dropping the prefix's segments gives "x"). *)
